@@ -272,6 +272,9 @@ theorem C19_parse_errors (data : Bytes) (e : PErr) (h : parseFile data = .error 
   | outOfFuel => exact absurd hs (by simp [GoodErr])
 
 -- the neighbouring shapes parse: f-string first, or an f-string with a variable after the plain string
+-- non-vacuity of `C19_parse_errors`: parser (not lexer) errors, positioned
+example : errOf (parseFile "x = )\n".toUTF8.data) = some (.fail 4 .value) := by decide +kernel
+example : errOf (parseFile "x = f\"{a\"\n".toUTF8.data) = some (.fail 6 .fbrace) := by decide +kernel
 example : errOf (parseFile "x = f\"a\" \"b\"\n".toUTF8.data) = none := by decide +kernel
 example : errOf (parseFile "x = \"a\" f\"{b}\"\n".toUTF8.data) = none := by decide +kernel
 
